@@ -20,9 +20,9 @@ echo "== demo WITH change (must fail)"
 go test -count=1 -timeout 10m -run 'Seeded|Demo|seeded|demo' $DEMOPKGS 2>&1 | tail -5
 WITH=$?
 echo "== demo WITHOUT change (must pass)"
-git stash -q
+git apply -R /tmp/seed/$ID.patch   # (git stash is shared between worktrees: never use it here)
 go test -count=1 -timeout 10m -run 'Seeded|Demo|seeded|demo' $DEMOPKGS 2>&1 | tail -3
-git stash pop -q
+git apply /tmp/seed/$ID.patch
 mkdir -p $OUT
 cp /tmp/seed/$ID.patch $OUT/patch.diff
 for f in $DEMOS; do mkdir -p $OUT/demo/$(dirname $f); cp $f $OUT/demo/$f; done
